@@ -44,6 +44,14 @@ type rdSys struct {
 	started  bool
 	rel      []int64  // relative alphabet (offsets from newest), or
 	abs      []uint64 // absolute alphabet
+	dead     bool
+	deferred bool     // C04: a successful check may keep its accept callback for later ("D:" / "A:k")
+	pend     []pendAcc
+}
+
+type pendAcc struct {
+	seq    uint64
+	accept func() bool
 }
 
 func newRdSys(cfg rdCfg, mode string) *rdSys {
@@ -102,12 +110,21 @@ func (s *rdSys) model(seq uint64) (ok, latest bool) {
 }
 
 func (s *rdSys) Ops() []string {
+	if s.dead {
+		return nil
+	}
 	var out []string
 	add := func(seq uint64) {
 		if s.zone(seq) {
 			return
 		}
 		out = append(out, "CA:"+strconv.FormatUint(seq, 10), "C:"+strconv.FormatUint(seq, 10))
+		if s.deferred && len(s.pend) < 2 {
+			out = append(out, "D:"+strconv.FormatUint(seq, 10))
+		}
+	}
+	for k := range s.pend {
+		out = append(out, "A:"+strconv.Itoa(k))
 	}
 	if s.abs != nil {
 		for _, a := range s.abs {
@@ -151,6 +168,21 @@ func (s *rdSys) Apply(op string) (obs, sig, msg string) {
 	if s.cfg.wrap {
 		kind = "wrap"
 	}
+	if op[:i] == "A" {
+		// a callback kept from an earlier successful check is invoked now
+		p := s.pend[seq]
+		s.pend = append(s.pend[:seq:seq], s.pend[seq+1:]...)
+		if s.zone(p.seq) {
+			// by now the number lies in the unconstrained band around the half-space boundary:
+			// whatever the late accept does is outside the property; do not build on it
+			p.accept()
+			s.dead = true
+			return "late-accept in boundary band", "", ""
+		}
+		latest := p.accept()
+		s.noteAccepted(p.seq, latest)
+		return fmt.Sprintf("late-accept latest=%v", latest), "", ""
+	}
 	mok, mlatest := s.model(seq)
 	accept, ok := s.det.Check(seq)
 	obs = fmt.Sprintf("ok=%v", ok)
@@ -178,6 +210,10 @@ func (s *rdSys) Apply(op string) (obs, sig, msg string) {
 			sg = "C05 admitted-stale "
 		}
 		return obs, sg + kind, fmt.Sprintf("%v: Check(%d)=%v, model %v (newest accepted %d, anything accepted: %v): %s", s.cfg, seq, ok, mok, s.newest, s.started, what)
+	}
+	if ok && op[:i] == "D" {
+		s.pend = append(s.pend, pendAcc{seq, accept})
+		return obs + " kept", "", ""
 	}
 	if ok && doAccept {
 		latest := accept()
@@ -229,13 +265,40 @@ func (s *rdSys) Apply(op string) (obs, sig, msg string) {
 	return obs, "", ""
 }
 
+// noteAccepted records a (possibly late) accept for the C04 oracle: the number counts as
+// accepted; it becomes the newest if it is ahead of the newest so far.
+func (s *rdSys) noteAccepted(seq uint64, implLatest bool) {
+	s.accepted[seq] = true
+	if !s.started {
+		s.newest, s.started = seq, true
+		return
+	}
+	if s.cfg.wrap {
+		M := s.m()
+		if ahead := (seq + M - s.newest) % M; ahead > 0 && ahead < M/2 {
+			s.newest = seq
+		}
+		for a := range s.accepted {
+			if (s.newest+M-a)%M+1 >= M/2 {
+				delete(s.accepted, a)
+			}
+		}
+	} else if seq > s.newest {
+		s.newest = seq
+	}
+}
+
 func (s *rdSys) Key() stateKey {
 	var acc []uint64
 	for a := range s.accepted {
 		acc = append(acc, a)
 	}
 	sort.Slice(acc, func(i, j int) bool { return acc[i] < acc[j] })
-	return dumpKey(nil, s.det, acc, s.newest, s.started)
+	var pend []uint64
+	for _, p := range s.pend {
+		pend = append(pend, p.seq)
+	}
+	return dumpKey(nil, s.det, acc, s.newest, s.started, pend)
 }
 
 // ------------------------------------------------------------------ enumeration
@@ -312,6 +375,7 @@ func runRD(mode, tier string, shard, shards int, rep *SeqReport) {
 				for a := uint64(0); a <= cfg.max+1; a++ {
 					s.abs = append(s.abs, a)
 				}
+				s.deferred = mode == "C04" && cfg.max <= 7
 				return s
 			}
 			depth := 64
